@@ -1747,7 +1747,15 @@ class Segment(Element):
         return valid
 
     def _get_children(self, trailing=False):
-        children = self.children.get_ordered_children()
+        children = []
+        for name in self.ordered_children or []:
+            # the position of a field is given by its number: the structure of some segments
+            # skips the numbers of withdrawn fields (e.g. DG1_7...DG1_14 in v2.6)
+            try:
+                children.extend([None] * (int(name[4:]) - 1 - len(children)))
+            except ValueError:
+                pass
+            children.append(self.children.indexes.get(name, None))
         if self.allow_infinite_children:
             for i in xrange(self._last_allowed_child_index + 1, self._last_child_index + 1):
                 children.append(self.children.indexes.get('{}_{}'.format(self.name, i), None))
